@@ -2,6 +2,7 @@ package main
 
 import (
 	"fmt"
+	"go/constant"
 	"go/token"
 	"go/types"
 	"sort"
@@ -650,3 +651,287 @@ func ruleKeyMirror(c *Ctx, r *Report) {
 }
 
 var _ = token.ADD
+
+// ruleKeySchedule13 (C10-4): HKDF-Expand-Label structure with the dtls13 prefix, the label
+// constants and which derivation uses which, the Early -> Handshake -> Master extraction chain,
+// the CertificateVerify input and the Finished MAC.
+func ruleKeySchedule13(c *Ctx, r *Report) {
+	const rule = "hkdf-label"
+	ks := "pkg/crypto/keyschedule"
+	if fn := c.need(r, rule, ks+".HkdfExpandLabel"); fn != nil {
+		r.Sites += len(fn.Blocks)
+		var bytesCall *ssa.Call
+		for _, ci := range callsIn(fn, nameHasSuffix("cryptobyte.Builder).Bytes")) {
+			bytesCall = ci.(*ssa.Call)
+		}
+		if bytesCall == nil {
+			r.Unk(rule, short(fn), c.pos(fn.Pos()), "HkdfLabel builder not found")
+		} else {
+			l, err := c.builderLayout(bytesCall.Call.Args[0], bytesCall)
+			c.checkLayout(r, rule, short(fn), bytesCall, l, err,
+				`length[1..0] u8len{ "dtls13"[*] label[*] } u8len{ context[*] }`,
+				"RFC 8446 7.1 HkdfLabel{uint16 length; opaque label<7..255> = prefix + Label; opaque context<0..255>} with the RFC 9147 5.9 prefix \"dtls13\"")
+			// expand is called with (hash, secret, that label, length)
+			for _, ci := range callsIn(fn, nameIs("crypto/hkdf.Expand[hash.Hash]", "crypto/hkdf.Expand")) {
+				call := ci.(*ssa.Call)
+				a := call.Call.Args
+				_, isSecret := a[1].(*ssa.Parameter)
+				_, isLen := a[3].(*ssa.Parameter)
+				r.Check(isSecret && isLen, rule, short(fn)+":expand-args", c.ipos(call), "HKDF-Expand(secret, HkdfLabel, length)", "HKDF-Expand is not called with the caller's secret and length")
+			}
+		}
+	}
+	if fn := c.need(r, rule, ks+".DeriveSecret"); fn != nil {
+		for _, ci := range callsIn(fn, nameIs(ks+".HkdfExpandLabel")) {
+			call := ci.(*ssa.Call)
+			a := call.Call.Args
+			_, okS := a[1].(*ssa.Parameter)
+			_, okL := a[2].(*ssa.Parameter)
+			okCtx := isCallResultAny(a[3]) && strings.Contains(shapeOf(a[3], 0), "Sum")
+			okLen := strings.Contains(shapeOf(a[4], 0), "Size")
+			r.Check(okS && okL && okCtx && okLen, rule, short(fn), c.ipos(call), "Derive-Secret = HKDF-Expand-Label(secret, label, Transcript-Hash, Hash.length)", "Derive-Secret is not HKDF-Expand-Label(secret, label, transcript hash, Hash.length) (RFC 8446 7.1)")
+		}
+	}
+	// which derivation uses which label
+	want := map[string]string{
+		"internal/handshake.deriveHandshakeKeySchedule|0":      "c hs traffic",
+		"internal/handshake.deriveHandshakeKeySchedule|1":      "s hs traffic",
+		"internal/handshake.deriveApplicationTrafficSecrets|0": "c ap traffic",
+		"internal/handshake.deriveApplicationTrafficSecrets|1": "s ap traffic",
+		"internal/handshake.deriveExporterMasterSecret|0":      "exp master",
+		"internal/handshake.deriveResumptionMasterSecret|0":    "res master",
+	}
+	seen := map[string]int{}
+	for _, s := range c.CallsToName("internal/handshake.deriveTrafficSecret") {
+		call := s.Call.(*ssa.Call)
+		lbl, _ := constString(call.Call.Args[2])
+		k := fmt.Sprintf("%s|%d", short(s.Fn), seen[short(s.Fn)])
+		seen[short(s.Fn)]++
+		w, ok := want[k]
+		r.Sites++
+		if !ok {
+			r.Unk("hkdf-label-use", k, c.ipos(call), "a traffic-secret derivation site without an entry in the label table")
+			continue
+		}
+		r.Check(lbl == w, "hkdf-label-use", k, c.ipos(call), "label "+fmt.Sprintf("%q", lbl), fmt.Sprintf("derivation uses label %q, RFC 8446 7.1 prescribes %q here", lbl, w))
+	}
+	r.Floor("hkdf-label-use", len(seen), 4)
+	// client/server assignment of the derived secrets
+	for _, name := range []string{"internal/handshake.deriveHandshakeKeySchedule", "internal/handshake.deriveApplicationTrafficSecrets"} {
+		fn := c.need(r, "hkdf-label-use", name)
+		if fn == nil {
+			continue
+		}
+		for _, al := range allocsOf(fn, "internal/state.TrafficSecrets") {
+			f := litFields(al)
+			for side, idx := range map[string]string{"Client": "c ", "Server": "s "} {
+				v := f[side]
+				good := false
+				for _, l := range c.Origins(v, 0) {
+					if ex, ok := l.(*ssa.Extract); ok {
+						if call, ok := ex.Tuple.(*ssa.Call); ok && calleeName(&call.Call) == "internal/handshake.deriveTrafficSecret" {
+							lbl, _ := constString(call.Call.Args[2])
+							good = strings.HasPrefix(lbl, idx)
+						}
+					}
+				}
+				r.Check(good, "hkdf-label-use", short(fn)+":"+side, c.ipos(al), side+" secret comes from the "+idx+"* label", "the "+side+" traffic secret is derived with the other side's label")
+			}
+		}
+	}
+	for fnName, lbl := range map[string]string{"internal/handshake.finishedKey": "finished", "internal/handshake.deriveNextApplicationTrafficSecret": "traffic upd"} {
+		if fn := c.need(r, "hkdf-label-use", fnName); fn != nil {
+			for _, ci := range callsIn(fn, nameIs(ks+".HkdfExpandLabel")) {
+				got, _ := constString(ci.Common().Args[2])
+				r.Check(got == lbl && isNilConst(ci.Common().Args[3]), "hkdf-label-use", short(fn), c.ipos(ci), fmt.Sprintf("label %q, empty context", got), fmt.Sprintf("label %q / non-empty context where RFC 8446 prescribes %q with an empty context", got, lbl))
+			}
+		}
+	}
+	// record keys
+	if fn := c.Fn("internal/ciphersuite.deriveRecordTrafficKeys13"); fn != nil {
+		var got []string
+		for _, ci := range callsIn(fn, nameIs(ks+".HkdfExpandLabel")) {
+			l, _ := constString(ci.Common().Args[2])
+			got = append(got, l)
+			r.Check(isNilConst(ci.Common().Args[3]), "hkdf-label-use", short(fn)+":"+l+":context", c.ipos(ci), "empty context", "record key derivation with a non-empty context")
+		}
+		// which output lands in which field, and with which length
+		wantField := map[string][2]string{"key": {"key", "keyLen"}, "iv": {"iv", "12"}, "sequenceNumberKey": {"sn", "keyLen"}}
+		nf := 0
+		for _, al := range allocsOf(fn, "internal/ciphersuite.recordTrafficKeys13") {
+			for f, v := range litFields(al) {
+				w, ok := wantField[f]
+				if !ok {
+					continue
+				}
+				good := false
+				desc := "not an HKDF-Expand-Label output"
+				for _, l := range c.Origins(v, 0) {
+					if ex, ok := l.(*ssa.Extract); ok {
+						if call, ok := ex.Tuple.(*ssa.Call); ok && calleeName(&call.Call) == ks+".HkdfExpandLabel" {
+							lbl, _ := constString(call.Call.Args[2])
+							ln := srcDesc(call.Call.Args[4])
+							if k, isC := constInt(call.Call.Args[4]); isC {
+								ln = fmt.Sprint(k)
+							}
+							desc = fmt.Sprintf("label %q length %s", lbl, ln)
+							good = lbl == w[0] && ln == w[1]
+						}
+					}
+				}
+				nf++
+				r.Check(good, "hkdf-label-use", short(fn)+":field:"+f, c.ipos(al), f+" = "+desc, fmt.Sprintf("record key field %s is filled from %s, expected label %q length %s (RFC 9147 4.2.3 / RFC 8446 7.3)", f, desc, w[0], w[1]))
+			}
+		}
+		r.Floor("hkdf-label-use:record-key-fields", nf, 3)
+		sort.Strings(got)
+		r.Check(strings.Join(got, ",") == "iv,key,sn", "hkdf-label-use", short(fn), c.pos(fn.Pos()), "labels key, iv, sn", "record keys are not derived with exactly the labels key / iv / sn (RFC 8446 7.3, RFC 9147 4.2.3): "+strings.Join(got, ","))
+	} else {
+		r.Unk("hkdf-label-use", "anchor:internal/ciphersuite.deriveRecordTrafficKeys13", "", "record key derivation not found")
+	}
+	// extraction chain
+	const rule2 = "key-schedule-chain"
+	if fn := c.need(r, rule2, "internal/handshake.deriveHandshakeSecret"); fn != nil {
+		ex := findCalls(fn, nameIs(ks+".HkdfExtract"))
+		ds := findCalls(fn, nameIs(ks+".DeriveSecret"))
+		ok := len(ex) == 2 && len(ds) == 1
+		if ok {
+			// Early = Extract(salt nil, zeros); derived = Derive-Secret(Early, "derived"); Handshake = Extract(derived, ECDHE)
+			early, hs := ex[0], ex[1]
+			if !instrDominates(early, hs) {
+				early, hs = hs, early
+			}
+			lbl, _ := constString(ds[0].Call.Args[2])
+			_, isZero := stripLoad(early.Call.Args[2]).(*ssa.MakeSlice)
+			if sl, okS := early.Call.Args[2].(*ssa.MakeSlice); okS {
+				_ = sl
+				isZero = true
+			}
+			okEarly := isNilConst(early.Call.Args[1]) && isZero
+			okDer := isCallResult(ds[0].Call.Args[1], nameIs(ks+".HkdfExtract")) && lbl == "derived" && isNilConst(ds[0].Call.Args[3])
+			_, isParam := hs.Call.Args[2].(*ssa.Parameter)
+			okHS := isCallResult(hs.Call.Args[1], nameIs(ks+".DeriveSecret")) && isParam
+			ok = okEarly && okDer && okHS
+		}
+		r.Check(ok, rule2, short(fn), c.pos(fn.Pos()), "Handshake Secret = Extract(Derive-Secret(Extract(0, 0), \"derived\", \"\"), (EC)DHE)", "the Early -> Handshake secret chain deviates from RFC 8446 7.1")
+	}
+	if fn := c.need(r, rule2, "internal/handshake.deriveMasterSecret"); fn != nil {
+		ex := findCalls(fn, nameIs(ks+".HkdfExtract"))
+		ds := findCalls(fn, nameIs(ks+".DeriveSecret"))
+		ok := len(ex) == 1 && len(ds) == 1
+		if ok {
+			lbl, _ := constString(ds[0].Call.Args[2])
+			_, isParam := ds[0].Call.Args[1].(*ssa.Parameter)
+			_, zeros := ex[0].Call.Args[2].(*ssa.MakeSlice)
+			ok = isParam && lbl == "derived" && isCallResult(ex[0].Call.Args[1], nameIs(ks+".DeriveSecret")) && zeros
+		}
+		r.Check(ok, rule2, short(fn), c.pos(fn.Pos()), "Master Secret = Extract(Derive-Secret(Handshake Secret, \"derived\", \"\"), 0)", "the Handshake -> Master secret chain deviates from RFC 8446 7.1")
+	}
+	// HkdfExtract argument order (Go's hkdf.Extract takes (hash, ikm, salt))
+	if fn := c.need(r, rule2, ks+".HkdfExtract"); fn != nil {
+		for _, ci := range callsIn(fn, func(n string) bool { return strings.HasPrefix(n, "crypto/hkdf.Extract") }) {
+			a := ci.Common().Args
+			p1, ok1 := a[1].(*ssa.Parameter)
+			p2, ok2 := a[2].(*ssa.Parameter)
+			r.Check(ok1 && ok2 && p1.Name() == "ikm" && p2.Name() == "salt", rule2, short(fn), c.ipos(ci), "hkdf.Extract(hash, ikm, salt)", "HkdfExtract passes salt and input keying material in the wrong order")
+		}
+	}
+	// Finished = HMAC(finished_key, Transcript-Hash)
+	if fn := c.need(r, rule, "internal/handshake.finishedVerifyData"); fn != nil {
+		var h ssa.Value
+		var hcall *ssa.Call
+		for _, ci := range callsIn(fn, nameIs("crypto/hmac.New")) {
+			hcall = ci.(*ssa.Call)
+			h = hcall
+		}
+		var sum ssa.Instruction
+		for _, b := range fn.Blocks {
+			for _, in := range b.Instrs {
+				if call, ok := in.(*ssa.Call); ok && call.Call.IsInvoke() && call.Call.Value == h && call.Call.Method.Name() == "Sum" {
+					sum = call
+				}
+			}
+		}
+		if h == nil || sum == nil {
+			r.Unk(rule, short(fn), c.pos(fn.Pos()), "HMAC construction not found")
+		} else {
+			l, err := c.hashWrites(h, sum)
+			c.checkLayout(r, rule, short(fn)+":mac-input", sum, l, err, "transcriptHash[*]", "RFC 8446 4.4.4 verify_data = HMAC(finished_key, Transcript-Hash)")
+			r.Check(isCallResult(hcall.Call.Args[1], nameIs("internal/handshake.finishedKey")), rule, short(fn)+":mac-key", c.ipos(hcall), "keyed by finished_key", "the Finished MAC is not keyed by finished_key")
+		}
+	}
+	// CertificateVerify input: 64 x 0x20 || context string || 0x00 || hash
+	if fn := c.need(r, rule, "internal/handshake.certificateVerifyInput"); fn != nil {
+		pad := c.constByName("internal/handshake", "certificateVerifyPaddingLen")
+		sc, _ := c.constStringByName("internal/handshake", "serverCertificateVerifyContext")
+		cc, _ := c.constStringByName("internal/handshake", "clientCertificateVerifyContext")
+		ok := pad == 64 && sc == "TLS 1.3, server CertificateVerify\x00" && cc == "TLS 1.3, client CertificateVerify\x00"
+		r.Check(ok, rule, short(fn)+":constants", c.pos(fn.Pos()), "64 bytes of padding and the RFC 8446 4.4.3 context strings with the 0x00 separator", fmt.Sprintf("CertificateVerify input constants deviate from RFC 8446 4.4.3: pad=%d server=%q client=%q", pad, sc, cc))
+		// 0x20 fill and role selection
+		fill := false
+		for _, b := range fn.Blocks {
+			for _, in := range b.Instrs {
+				if st, ok := in.(*ssa.Store); ok {
+					if k, isC := constInt(st.Val); isC && k == 0x20 {
+						fill = true
+					}
+				}
+			}
+		}
+		r.Check(fill, rule, short(fn)+":fill", c.pos(fn.Pos()), "padding bytes are 0x20", "the CertificateVerify padding is not 0x20")
+	}
+}
+
+func (c *Ctx) constByName(rel, name string) int64 {
+	p := c.Pkg(rel)
+	if p == nil {
+		return -1
+	}
+	if k, ok := p.Pkg.Scope().Lookup(name).(*types.Const); ok {
+		if v, ok := constantInt64(k); ok {
+			return v
+		}
+	}
+	return -1
+}
+
+func (c *Ctx) constStringByName(rel, name string) (string, bool) {
+	p := c.Pkg(rel)
+	if p == nil {
+		return "", false
+	}
+	o := p.Pkg.Scope().Lookup(name)
+	switch k := o.(type) {
+	case *types.Const:
+		if k.Val().Kind() == constant.String {
+			return constant.StringVal(k.Val()), true
+		}
+	case *types.Var:
+		// package-level var initialised with a string / []byte literal: read the initialiser
+		if g, ok := p.Members[name].(*ssa.Global); ok {
+			if init := p.Func("init"); init != nil {
+				for _, b := range init.Blocks {
+					for _, in := range b.Instrs {
+						if st, ok := in.(*ssa.Store); ok && st.Addr == ssa.Value(g) {
+							for _, l := range c.Origins(st.Val, 0) {
+								if s, ok := constString(l); ok {
+									return s, true
+								}
+								if cv, ok := l.(*ssa.Convert); ok {
+									if s, ok := constString(cv.X); ok {
+										return s, true
+									}
+								}
+							}
+						}
+					}
+				}
+			}
+		}
+	}
+	return "", false
+}
+
+func constantInt64(k *types.Const) (int64, bool) {
+	return constant.Int64Val(k.Val())
+}
